@@ -7,6 +7,7 @@ import (
 	"encoding/binary"
 	"encoding/json"
 	"fmt"
+	"strings"
 	"testing"
 	"unicode/utf8"
 
@@ -52,6 +53,8 @@ func genBloomCase(t *rapid.T) bloomCase {
 		rapid.SampledFrom(vlib.Pool),
 		rapid.Map(rapid.SliceOfN(rapid.Byte(), 1, 24), func(b []byte) string { return string(b) }),
 		rapid.StringN(1, 8, 24),
+		rapid.Map(rapid.SampledFrom([]int{63, 64, 65, 255, 256, 1000, 4096, 70000}), func(n int) string { return strings.Repeat("K", n) }),
+		rapid.Map(rapid.SampledFrom([]int{64, 100, 300}), func(n int) string { return strings.Repeat("p", n) + "-tail" }),
 	)
 	nexp := rapid.IntRange(0, 12).Draw(t, "nexplicit")
 	for i := 0; i < nexp; i++ {
@@ -63,10 +66,13 @@ func genBloomCase(t *rapid.T) bloomCase {
 		c.GenCount = rapid.IntRange(0, 10).Draw(t, "gencount")
 	case class < 85:
 		c.GenCount = rapid.IntRange(10, 1000).Draw(t, "gencount")
-	case class < 97:
+	case class < 96:
 		c.GenCount = rapid.IntRange(1000, 6000).Draw(t, "gencount")
-	default:
+	case class < 99:
 		c.GenCount = rapid.IntRange(6000, 20000).Draw(t, "gencount")
+	default:
+		// a table flushed from a default-size (4 MiB) memtable holds on the order of 10^5 keys
+		c.GenCount = rapid.IntRange(60000, 160000).Draw(t, "gencount")
 	}
 	if len(c.Explicit)+c.GenCount == 0 {
 		c.Explicit = append(c.Explicit, vlib.Str(anyKey.Draw(t, "key")))
@@ -130,8 +136,10 @@ func runBloom(c bloomCase) (msg string, nontrivial bool, classes []string) {
 		classes = append(classes, "size_2_10")
 	case n <= 1000:
 		classes = append(classes, "size_11_1000")
-	default:
+	case n <= 50000:
 		classes = append(classes, "size_gt_1000")
+	default:
+		classes = append(classes, "size_gt_50000")
 	}
 	classes = append(classes, "mode_"+c.Mode)
 	if c.Versions > 1 && c.Mode == "build" {
